@@ -211,6 +211,27 @@ Definition s_xtrim (h : hint) (v : sval) (n : nat) : sval * outcome :=
   if length (svec v) <? n then R v else
   D (match v with None => None | Some (t, l) => Some (t, firstn (length l - n) l) end).
 
+Definition resizev (l : list byte) (m : nat) : list byte := firstn m l ++ zeros (m - length l).
+
+Definition s_xsetref (v from : sval) : sval * outcome :=
+  match from with
+  | Some (t, _) => if negb (t =? 0) then R v else D from
+  | None => D None
+  end.
+Definition s_xsetval (v : sval) (tr : nat) (d : list byte) : sval * outcome :=
+  if (tr =? 0) || aligned tr (length d) then D (Some (tr, d)) else R v.
+Definition s_xsetlen (h : hint) (v : sval) (n : nat) : sval * outcome :=
+  match v with
+  | None => G v
+  | Some (t, l) =>
+    if guarded h then G v else
+    if negb (t =? 0) then R v else
+    if hsz h <? n then R v else D (Some (0, resizev l n))
+  end.
+Definition s_xslcopy (from : sval) : sval * outcome := D from.
+Definition s_xslset (v : sval) (d : list byte) (ok : bool) : sval * outcome :=
+  if ok then D (Some (0, d)) else R v.
+
 (* ---- class templates of mptcore/array.h: the handle holds elements of [tr] bytes; positions are C longs
    ([tpos]); a template operation is applied to a value of its own element type only *)
 Definition s_tok (v : sval) (tr : nat) : bool :=
@@ -241,8 +262,6 @@ Definition s_tstore (h : hint) (v : sval) (tr : nat) (pos : tpos) (off : nat) (d
   | None => R v
   | Some p => if n <=? p then R v else if blocked h l then R v else D (Some (tr, put l (p * tr + off) d))
   end.
-
-Definition resizev (l : list byte) (m : nat) : list byte := firstn m l ++ zeros (m - length l).
 
 Definition s_tresize (h : hint) (v : sval) (tr : nat) (len : tpos) : sval * outcome :=
   let l := svec v in
@@ -351,6 +370,15 @@ Definition sstep (vs : list sv) (o : op) (h : hint) : list sv * outcome :=
     else fin (s_xmks (snd (nth y vs (false, None))))
   | OXShift _ n => fin (s_xshift h v n)
   | OXTrim _ n => fin (s_xtrim h v n)
+  | OXSetRef _ y =>
+    if negb (y <? length vs) || fst (nth y vs (false, None)) then (vs, OGuard)
+    else fin (s_xsetref v (snd (nth y vs (false, None))))
+  | OXSetVal _ tr d => fin (s_xsetval v tr d)
+  | OXSetLen _ n => fin (s_xsetlen h v n)
+  | OXSliceCopy _ t =>
+    if negb (t <? length vs) || negb (fst (nth t vs (false, None))) then (vs, OGuard)
+    else fin (s_xslcopy (snd (nth t vs (false, None))))
+  | OXSliceSet _ d ok => fin (s_xslset v d ok)
   | OTNew _ tr _ len => if tr =? 0 then (vs, OGuard) else fin (s_tnew tr)
   | OTInsert _ tr _ pos d =>
     if negb (s_tok v tr && (length d =? tr)) then (vs, OGuard) else fin (s_tinsert h v tr pos d)
